@@ -330,7 +330,10 @@ class StateMachine(object):  # pylint: disable=too-many-public-methods
     def action(self, event):
         # (int) -> None
         """Execute the action triggered by event"""
-        action = self.transition_table[(event, self.current_state)]
+        action = self.transition_table.get((event, self.current_state))
+        if action is None:
+            # combination not defined by PS3.8 Table 9-10: ignore the event
+            return
         self.current_state = action()
 
     def ae_1(self):
